@@ -6,6 +6,7 @@ import (
 
 	"github.com/libp2p/go-libp2p/p2p/host/eventbus"
 
+	"berty.tech/go-ipfs-log/entry/sorting"
 	"berty.tech/go-ipfs-log/identityprovider"
 	orbitdb "berty.tech/go-orbit-db"
 	"berty.tech/go-orbit-db/accesscontroller"
@@ -31,6 +32,14 @@ func DefaultOrbitDBOptions(g *protocoltypes.Group, options *orbitdb.CreateDBOpti
 		Cache:                   options.Cache,
 		EventBus:                options.EventBus,
 		Logger:                  options.Logger,
+		SortFn:                  options.SortFn,
+	}
+
+	// every writer of a group signs its entries with the same (group) identity, so
+	// concurrent entries with equal Lamport time share their clock id: break those
+	// ties by entry hash, the default tie-break depends on the order of arrival
+	if options.SortFn == nil {
+		options.SortFn = sorting.SortByEntryHash
 	}
 
 	t := true
